@@ -4,4 +4,4 @@ CONSTANTS
   Rewards <- RewardsC
   MaxFamily = 5
   PrevOffset = 16384
-INVARIANTS OperandsValid ShapesCovered CarelessKilled ShapeVerdicts AggregateFaithful OrderGroupingIndependent DeaggregateRemainder HydrateIdentity BlockValid LibrariesNonDegenerate
+INVARIANTS OperandsValid ShapesCovered CarelessKilled ShapeVerdicts AggregateFaithful DeaggregateRemainder PlanChecks BlockValid LibrariesNonDegenerate
